@@ -1,4 +1,7 @@
-import DcmVerif.Props.SourceMeta
+import DcmVerif.Props.Source_classes
+import DcmVerif.Props.Source_simplify
+import DcmVerif.Props.Source_shapes
+import DcmVerif.Props.Source_wrapsplit
 import DcmVerif.Props.C04_wrap
 import DcmVerif.Proofs.Total
 /-! Property theorems for C04. Statements only; proofs are by reference to `Proofs/`. -/
